@@ -620,8 +620,8 @@ pub fn run(ctx: &Ctx) -> ! {
         };
         vcore::finish(ctx, report, fin());
     }
-    let nports = ctx.pick(3000u64, 80_000);
-    let ndns = ctx.pick(300u64, 6000);
+    let nports = ctx.pick(12_000u64, 200_000);
+    let ndns = ctx.pick(1000u64, 12_000);
     let c2 = ctx.clone();
     let report = vcore::run_parallel(
         ctx,
